@@ -5,17 +5,27 @@ package c08
 import (
 	"bytes"
 	"fmt"
+	"os"
 	"testing"
 	"testing/synctest"
 	"time"
 
+	"github.com/brewlin/net-protocol/pkg/waiter"
+	tcpip "github.com/brewlin/net-protocol/protocol"
+	"github.com/brewlin/net-protocol/protocol/header"
 	"github.com/brewlin/net-protocol/protocol/network/fragmentation"
+	"github.com/brewlin/net-protocol/protocol/network/hash"
+	"github.com/brewlin/net-protocol/protocol/network/ipv4"
+	"github.com/brewlin/net-protocol/protocol/transport/udp"
 	"verifh/fw"
+	"verifh/rfc"
+	"verifh/wire"
 )
 
 // vtPhase: the reassembly-timeout clause, in virtual time (API level).
 func vtPhase(t *testing.T) {
 	synctest.Test(t, func(t *testing.T) {
+		endToEnd()
 		n := fw.N(2000, 100000)
 		for i := 0; i < n; i++ {
 			r := fw.NewRand(run.Seed, "C08", "timeout", i)
@@ -90,5 +100,215 @@ func vtPhase(t *testing.T) {
 			run.Count("timeout_scenarios", 1)
 			run.Count("sets_expired_before_completion", int64(expired))
 		}
+		// the stack's goroutines never exit: leave the bubble by ending the process
+		os.Exit(run.Finish("", nil))
 	})
+}
+
+
+// ---- end to end: fragments injected as IPv4 packets for a bound UDP socket ------------
+
+type dgram struct {
+	src, dst [4]byte
+	id       uint16
+	proto    uint8
+	sport    uint16
+	payload  []byte
+}
+
+// pieces cuts the UDP datagram into fragments at 8-byte boundaries.
+func (d dgram) pieces(r *fw.Rand, n int) [][]byte {
+	u := rfc.UDP{SrcPort: d.sport, DstPort: 7000, Payload: d.payload}
+	whole := u.Bytes4(d.src, d.dst, true)
+	blocks := (len(whole) + 7) / 8
+	if n > blocks {
+		n = blocks
+	}
+	cut := map[int]bool{}
+	for len(cut) < n-1 {
+		cut[1+r.Intn(blocks-1)] = true
+	}
+	var out [][]byte
+	st := 0
+	for b := 1; b <= blocks; b++ {
+		if cut[b] || b == blocks {
+			e := b * 8
+			if e > len(whole) {
+				e = len(whole)
+			}
+			f := rfc.IPv4{TTL: 64, Proto: d.proto, ID: d.id, Src: d.src, Dst: d.dst, FragOff: uint16(st / 8), Payload: whole[st:e]}
+			if e < len(whole) {
+				f.Flags = 1
+			}
+			out = append(out, f.Bytes(true))
+			st = e
+		}
+	}
+	return out
+}
+
+func e2ePayload(tag uint32, n int) []byte {
+	b := make([]byte, n)
+	for i := range b {
+		b[i] = byte(uint32(i)*2654435761>>24) ^ byte(tag*97)
+	}
+	b[0], b[1], b[2], b[3] = byte(tag>>24), byte(tag>>16), byte(tag>>8), byte(tag)
+	return b
+}
+
+func endToEnd() {
+	h, err := wire.NewHost(wire.HostCfg{Name: "F", MTU: 1500, V4: []tcpip.Address{wire.AddrA4, "\x0a\x00\x00\x05"}})
+	if err != nil {
+		run.Broken("harness: " + err.Error())
+		return
+	}
+	ep, _ := h.S.NewEndpoint(udp.ProtocolNumber, ipv4.ProtocolNumber, &waiter.Queue{})
+	ep.Bind(tcpip.FullAddress{Port: 7000}, nil)
+	inject := func(b []byte) { h.L.Inject(ipv4.ProtocolNumber, b, "") }
+	readAll := func() (got [][]byte) {
+		for {
+			v, _, e := ep.Read(nil)
+			if e != nil {
+				return
+			}
+			got = append(got, v)
+		}
+	}
+	same := func(got [][]byte, want ...[]byte) bool {
+		if len(got) != len(want) {
+			return false
+		}
+		used := make([]bool, len(want))
+		for _, g := range got {
+			ok := false
+			for i, w := range want {
+				if !used[i] && bytes.Equal(g, w) {
+					used[i], ok = true, true
+					break
+				}
+			}
+			if !ok {
+				return false
+			}
+		}
+		return true
+	}
+	a4 := func(a tcpip.Address) (r [4]byte) { copy(r[:], a); return }
+	n := fw.N(400, 40000)
+	for k := 0; k < n && run.Violations() < 4; k++ {
+		r := fw.NewRand(run.Seed, "C08", "e2e", k)
+		base := dgram{src: [4]byte{10, 0, 0, 2}, dst: a4(wire.AddrA4), id: uint16(r.U32()), proto: rfc.ProtoUDP, sport: 999, payload: e2ePayload(uint32(2*k), 64+r.Intn(3000))}
+		other := base
+		other.payload = e2ePayload(uint32(2*k+1), 64+r.Intn(3000))
+		diff := []string{"id", "src", "dst", "src-last-octet"}[r.Intn(4)]
+		switch diff {
+		case "id":
+			other.id = base.id + uint16(1+r.Intn(3))
+		case "src":
+			other.src = [4]byte{10, 0, byte(1 + r.Intn(200)), 2}
+		case "src-last-octet":
+			other.src = [4]byte{10, 0, 0, byte(3 + r.Intn(200))}
+		case "dst":
+			other.dst = [4]byte{10, 0, 0, 5}
+		}
+		pa, pb := base.pieces(r, 2+r.Intn(6)), other.pieces(r, 2+r.Intn(6))
+		// interleave the two datagrams' fragments in PRNG order
+		var seq [][]byte
+		ia, ib := r.Perm(len(pa)), r.Perm(len(pb))
+		for len(ia)+len(ib) > 0 {
+			if len(ib) == 0 || (len(ia) > 0 && r.Bool()) {
+				seq = append(seq, pa[ia[0]])
+				ia = ia[1:]
+			} else {
+				seq = append(seq, pb[ib[0]])
+				ib = ib[1:]
+			}
+		}
+		mode := r.Intn(4)
+		rep := map[string]interface{}{"k": k, "differs_in": diff, "fragments": []int{len(pa), len(pb)}, "mode": mode}
+		switch mode {
+		case 0, 1: // both complete: both delivered intact, nothing mixed
+			for _, f := range seq {
+				inject(f)
+			}
+			if got := readAll(); !same(got, base.payload, other.payload) {
+				lens := []int{}
+				for _, g := range got {
+					lens = append(lens, len(g))
+				}
+				run.Violation("C08/e2e/mixed-or-lost", fmt.Sprintf("two datagrams differing only in %s, fragments interleaved: socket returned %d datagrams of lengths %v; expected the two originals (%d and %d bytes) intact", diff, len(got), lens, len(base.payload), len(other.payload)), rep)
+			}
+			run.Count("e2e_interleaved_pairs", 1)
+		case 2: // one fragment of B withheld: only A may be delivered
+			skip := pb[r.Intn(len(pb))]
+			for _, f := range seq {
+				if &f[0] != &skip[0] {
+					inject(f)
+				}
+			}
+			if got := readAll(); !same(got, base.payload) {
+				run.Violation("C08/e2e/incomplete-delivered", fmt.Sprintf("one fragment of the second datagram (differs in %s) never arrived, yet the socket returned %d datagrams", diff, len(got)), rep)
+			}
+			// leftovers of B stay in the reassembler; let them age out so that they cannot meet a later datagram
+			time.Sleep(31 * time.Second)
+			run.Count("e2e_incomplete_sets", 1)
+		case 3: // half of A, 31 virtual seconds, the other half: nothing; then a fresh complete set: delivered
+			half := len(pa) / 2
+			if half == 0 {
+				half = 1
+			}
+			for _, f := range pa[:half] {
+				inject(f)
+			}
+			time.Sleep(31 * time.Second)
+			for _, f := range pa[half:] {
+				inject(f)
+			}
+			if got := readAll(); len(got) != 0 {
+				run.Violation("C08/e2e/combined-across-timeout", fmt.Sprintf("fragments separated by 31 s (reassembly timeout 30 s) were combined into a %d-byte datagram", len(got[0])), rep)
+			}
+			time.Sleep(31 * time.Second)
+			for _, f := range pa {
+				inject(f)
+			}
+			if got := readAll(); !same(got, base.payload) {
+				run.Violation("C08/e2e/fresh-set-not-delivered", fmt.Sprintf("a complete fresh set after the stale fragments expired yielded %d datagrams", len(got)), rep)
+			}
+			run.Count("e2e_timeout_rounds", 1)
+		}
+		run.Case(fw.Hash("e2e", diff, mode, len(pa), len(pb)), true)
+	}
+	// the reassembly key is a 32-bit hash of (id, protocol, source, destination): look for two
+	// different keys with the same hash (birthday search through the exported hash function)
+	seen := map[uint32][2]uint32{}
+	r := fw.NewRand(run.Seed, "C08", "collide")
+	var ka, kb [2]uint32
+	found := false
+	for i := 0; i < 400000 && !found; i++ {
+		id, last := r.U32()&0xffff, r.U32()
+		hb := rfc.IPv4{TTL: 64, Proto: rfc.ProtoUDP, ID: uint16(id), Src: [4]byte{10, byte(last >> 16), byte(last >> 8), byte(last)}, Dst: a4(wire.AddrA4)}.Bytes(true)
+		hv := hash.IPv4FragmentHash(header.IPv4(hb))
+		key := [2]uint32{id, last & 0xffffff}
+		if o, ok := seen[hv]; ok && o != key {
+			ka, kb, found = o, key, true
+		}
+		seen[hv] = key
+	}
+	run.Count("hash_keys_sampled", int64(len(seen)))
+	if found {
+		mk := func(k [2]uint32, tag uint32) dgram {
+			return dgram{src: [4]byte{10, byte(k[1] >> 16), byte(k[1] >> 8), byte(k[1])}, dst: a4(wire.AddrA4), id: uint16(k[0]), proto: rfc.ProtoUDP, sport: 999, payload: e2ePayload(tag, 200)}
+		}
+		da, db := mk(ka, 0xAAAA0001), mk(kb, 0xBBBB0002)
+		pa, pb := da.pieces(r, 2), db.pieces(r, 2)
+		inject(pa[0])
+		inject(pb[1])
+		inject(pb[0])
+		inject(pa[1])
+		got := readAll()
+		if !same(got, da.payload, db.payload) {
+			run.Violation("C08/e2e/hash-collision-mixes-datagrams", fmt.Sprintf("datagrams (id %d from 10.%d.%d.%d) and (id %d from 10.%d.%d.%d) differ in identification and source but share the 32-bit reassembly hash: with their fragments interleaved the socket returned %d datagrams, none or not both of them the originals", ka[0], ka[1]>>16, ka[1]>>8&255, ka[1]&255, kb[0], kb[1]>>16, kb[1]>>8&255, kb[1]&255, len(got)), map[string]interface{}{"key_a": ka, "key_b": kb})
+		}
+		run.Count("hash_collision_pairs_tested", 1)
+	}
 }
